@@ -103,6 +103,21 @@ def install():
             return f
         setattr(ConnectionManager, name, wrap(getattr(ConnectionManager, name)))
 
+    from frontends.tui.controller import Controller
+    orig_got = Controller.connection_got_new_message
+
+    def got(self, connection, message):
+        before = len(self.all_messages)
+        try:
+            return orig_got(self, connection, message)
+        finally:
+            COUNTS['controller_invariant'] += 1
+            after = len(self.all_messages)
+            if after != before + 1 or self.all_messages[-1] is not message:
+                _viol('inv-controller-record', 'a message arrived on connection %s: the all-connections record went from %d to %d entries%s' % (
+                    connection.name(), before, after, '' if after != before + 1 else ' but its last entry is another message'))
+    Controller.connection_got_new_message = got
+
     # only when 'alive' is a plain instance attribute (as in the pinned tree); a class-level definition is left alone
     if 'alive' not in ObjectBase.__dict__:
         ObjectBase.alive = AliveWatch()
